@@ -107,10 +107,6 @@ func malformedMessage(c *Conversation) {
 }
 
 func (v otrV3) verifyInstanceTags(c *Conversation, their, our uint32) error {
-	if c.theirInstanceTag == 0 {
-		c.theirInstanceTag = their
-	}
-
 	if our > 0 && our < minValidInstanceTag {
 		malformedMessage(c)
 		return errInvalidOTRMessage
@@ -122,9 +118,14 @@ func (v otrV3) verifyInstanceTags(c *Conversation, their, our uint32) error {
 	}
 
 	if (our != 0 && c.ourInstanceTag != our) ||
-		(c.theirInstanceTag != their) {
+		(c.theirInstanceTag != 0 && c.theirInstanceTag != their) {
 		c.messageEvent(MessageEventReceivedMessageForOtherInstance)
 		return errReceivedMessageForOtherInstance
+	}
+
+	// the peer's tag is learnt only from a message that carries valid tags and is meant for us
+	if c.theirInstanceTag == 0 {
+		c.theirInstanceTag = their
 	}
 
 	return nil
